@@ -98,9 +98,42 @@ pub fn make_base(ps: u64, commits: usize, seed: u64, scratch: &Scratch) -> Resul
         hp.txs.pop();
         crate::c06::replay_model(&hp, &mut s_prev);
     }
-    let (m, _) = fileck::choose_meta(&image, ps);
-    let m = m.ok_or("base file has no valid header")?;
-    Ok(Base { history: h, image, newest_slot: m.slot, s_new, s_prev, ps })
+    // which slot holds the newest header?  Asked of the code under test itself, so that the check does
+    // not depend on the checksum algorithm: zero each slot in turn and see which state is shown.
+    let mut newest_slot = None;
+    if commits == 0 {
+        newest_slot = Some(1);
+    } else {
+        for s in 0..2u64 {
+            let mut img = image.clone();
+            for b in img[(s * ps) as usize..((s + 1) * ps) as usize].iter_mut() {
+                *b = 0;
+            }
+            let p2 = scratch.fresh("probe");
+            std::fs::write(&p2, &img).map_err(|e| e.to_string())?;
+            let shown = util::catch(|| -> Option<MBucket> {
+                let db = exec::open_db(&p2, &h).ok()?;
+                let tx = db.tx(false).ok()?;
+                exec::dump_tx(&tx).ok()
+            });
+            let _ = std::fs::remove_file(&p2);
+            if let Ok(Some(st)) = shown {
+                if st.diff(&s_prev, false).is_none() && st.diff(&s_new, false).is_some() {
+                    newest_slot = Some(s);
+                }
+            }
+        }
+    }
+    let newest_slot = match newest_slot {
+        Some(s) => s,
+        None => {
+            // zeroing either header does not bring back the previous commit: fall back to the parser's view;
+            // the mutation sweep below will report what is wrong
+            let (m, _) = fileck::choose_meta(&image, ps);
+            m.map(|m| m.slot).unwrap_or(commits as u64 % 2 ^ 1)
+        }
+    };
+    Ok(Base { history: h, image, newest_slot, s_new, s_prev, ps })
 }
 
 fn shift_handles(op: &mut Op) {
